@@ -109,8 +109,8 @@ func runMCReflect(c *Ctx, jobs []ReflJob) ([]ReflVerdict, *ReflStats) {
 			var sum struct {
 				Edges, States, Reads int64
 				Ops, Rdops           int
-				NilOrigins           int64 `json:"nil_origins"`
-				NilChecks            int64 `json:"nil_checks"`
+				NilOrigins           int64            `json:"nil_origins"`
+				NilChecks            int64            `json:"nil_checks"`
 				ByOp                 map[string]int64 `json:"by_op"`
 			}
 			ok := false
